@@ -19,7 +19,13 @@ RULE = (
     "capped at 24 incl. boundary members); grammar: assignments, displays, if/elif/else over isinstance/is None/==/in/"
     "len/truthiness/and/or/not, for/while with break/continue/else, try/except/else/finally, match, unpacking incl. "
     "star targets, subscripts incl. negative/out-of-range/slices, arithmetic, calls to generic helpers/builtins/"
-    "siblings, walrus, assert. Non-trivial = at least one evaluated node with an informative inferred type (not "
+    "siblings, walrus, assert; parameters and displays of tuple types with an unbounded member before/between/after "
+    "fixed members (tuple[int, *tuple[str, ...], float], (a, *xs, b), [a, *xs]) incl. arguments whose unbounded part is "
+    "empty, subscripted at every position class (before/at/after the unbounded member, out of range, both signs) and "
+    "swept over EVERY constant index from -(n+1) to n, star-unpacked, iterated and matched; narrowing conditions STORED "
+    "in a variable and tested later (`ok = c ... if ok:` / `if not ok:`) with the tested variable left alone, rebound on "
+    "some paths only (if-body, else-body, for-body, while-body, try-body, except-body) or on all paths. "
+    "Non-trivial = at least one evaluated node with an informative inferred type (not "
     "Any/object/opaque) received a decided membership verdict; distinct by (function source, repr of arguments)."
 )
 ASSUMPTIONS = [
@@ -28,7 +34,8 @@ ASSUMPTIONS = [
     "programs do not mutate containers, do not recurse, loops are bounded",
 ]
 FLOORS = {
-    "quick": {"distinct_nontrivial": 10000, "functions_called": 800, "rec_evaluations": 200000, "decided_memberships": 200000, "witnesses_minimised": 1},
+    "quick": {"distinct_nontrivial": 10000, "functions_called": 800, "rec_evaluations": 200000, "decided_memberships": 200000, "witnesses_minimised": 1,
+              "star_tuple_const_subscript_evaluations": 0, "stored_condition_branch_evaluations": 0},
     "thorough": {"distinct_nontrivial": 40000, "functions_called": 8000, "rec_evaluations": 1000000},
 }
 EXCUSING_CODES = {
@@ -94,6 +101,7 @@ def check_module(ctx, source: str, funcs, only_func=None, only_args=None, kwargs
                         excused_funcs.add(name)
         ctx.count("modules_checked")
         state = {"decided": 0, "informative": 0, "bad": [], "steps": 0}
+        reach = workload_reach(ins)
 
         def on_value(k, value):
             state["steps"] += 1
@@ -103,6 +111,8 @@ def check_module(ctx, source: str, funcs, only_func=None, only_args=None, kwargs
             if entry is None:
                 return
             t, v = entry
+            if k in reach:
+                ctx.count(reach[k])
             m = ty.member(value, t)
             ctx.count("rec_evaluations")
             if m is None:
@@ -183,6 +193,41 @@ def check_module(ctx, source: str, funcs, only_func=None, only_args=None, kwargs
         ins.dispose()
 
 
+def _has_unbounded_member(t: ty.Ty) -> bool:
+    return t.kind == "MixTuple" or (t.kind == "SeqPat" and any(many for many, _ in t.args[0]))
+
+
+def workload_reach(ins) -> dict:
+    """k -> counter name, for the evaluated nodes that show a run reached the input classes named in RULE:
+    constant subscripts of a value inferred as a sequence with an unbounded member, and reads in the branches of an
+    `if` that tests a stored condition (a bare name, possibly negated)."""
+    by_key = {key: k for k, key in enumerate(ins.keys)}
+    out = {}
+    for node in ast.walk(ins.tree):
+        if isinstance(node, ast.Subscript) and isinstance(node.ctx, ast.Load):
+            sl = node.slice
+            const = isinstance(sl, ast.Constant) or (isinstance(sl, ast.UnaryOp) and isinstance(sl.operand, ast.Constant))
+            base = getattr(node.value, "inferred_value", None)
+            if const and base is not None:
+                try:
+                    bt = ty.from_value(base)
+                except Exception:  # noqa: BLE001
+                    continue
+                k = by_key.get(instrument.node_key(node))
+                if k is not None and any(_has_unbounded_member(m) for m in (bt.args if bt.kind == "Union" else (bt,))):
+                    out[k] = "star_tuple_const_subscript_evaluations"
+        elif isinstance(node, ast.If):
+            test = node.test.operand if isinstance(node.test, ast.UnaryOp) and isinstance(node.test.op, ast.Not) else node.test
+            if isinstance(test, ast.Name) and test.id.startswith("ok"):
+                for st in node.body + node.orelse:
+                    for sub in ast.walk(st):
+                        if isinstance(sub, ast.Name) and isinstance(sub.ctx, ast.Load):
+                            k = by_key.get(instrument.node_key(sub))
+                            if k is not None:
+                                out.setdefault(k, "stored_condition_branch_evaluations")
+    return out
+
+
 def equals_an_inferred_literal(value, v) -> bool:
     """The runtime value is a container that compares equal (==, same outer type) to a literal member of the inferred
     value although the membership oracle tells them apart: nested elements differ in type ([Num.ONE] == [1],
@@ -227,11 +272,14 @@ def shard(ctx) -> None:
 
     n = ctx.pick(60, 1000)
     prods = set()
+    prod_counts: dict = {}
     raw = Ctx(ID, ctx.tier, ctx.seed, ctx.shard, ctx.nshards)  # collects un-minimised violations
     raw.rng = ctx.rng
     for i in range(n):
         source, funcs, p = proggen.gen_module(ctx.rng)
         prods |= p
+        for name_, n_ in getattr(p, "counts", {}).items():
+            prod_counts[name_] = prod_counts.get(name_, 0) + n_
         check_module(raw, source, funcs)
     # everything the raw recorder observed is evidence of this run
     for k, v in raw.counters.items():
@@ -243,6 +291,8 @@ def shard(ctx) -> None:
     ctx.samples.extend(raw.samples)
     for p in prods:
         ctx.histo("grammar_productions", p)
+    for p, n_ in prod_counts.items():
+        ctx.histo("grammar_production_uses", p, n_)
     # minimise one witness per raw key, then key the violation by the features the minimal program still needs
     done = {}
     budget = ctx.pick(120, 400)
@@ -333,8 +383,12 @@ def _runtime_cross_type_equal(minsrc: str, fname: str, entry: str, args) -> bool
         return False
     try:
         seen: dict = {}
+        steps = [0]
 
         def on_value(k, value):
+            steps[0] += 1
+            if steps[0] > STEP_LIMIT:  # a minimised program may have lost its loop-counter update
+                raise StepLimit()
             lst = seen.setdefault(ins.keys[k], [])
             if len(lst) < 20:
                 lst.append(value)
@@ -408,6 +462,10 @@ def mechanism_key(minkey: str, minsrc: str, fname: str, params=None, args=None, 
     node, mismatch = parts[0], parts[-1]
     if mismatch.endswith("not in Never"):
         mismatch = mismatch.split(" not in ")[0] + " reached Never"
+    if mismatch.endswith("reached Never") and _union_valued_stored_condition(minsrc, fname):
+        return "stored-condition|union-valued-condition-adds-its-constraint-twice-at-one-node-and-narrows-to-Never"
+    if mismatch.endswith("reached Never") and params is not None and args is not None and _instance_of_two_unrelated_classes(minsrc, fname, params, args):
+        return "intersection|instance-of-two-unrelated-classes-is-narrowed-away"
     feats = features(minsrc, fname)
     # a bare name, or a subscript/attribute path (`if c[0]:`), used as a condition is a truthiness test
     truthy_feats = ("truthy" in feats) or node in ("UnaryOp", "BoolOp") or bool(
@@ -425,6 +483,76 @@ def mechanism_key(minkey: str, minsrc: str, fname: str, params=None, args=None, 
     if node_src and any(_loop_carried(minsrc, fname, n.id) for n in ast.walk(ast.parse(node_src, mode="eval")) if isinstance(n, ast.Name)):
         return "loop|value-carried-around-the-loop-is-analysed-with-two-passes-only"
     return f"{node}|{mismatch}|needs:{feats}"
+
+
+def _instance_of_two_unrelated_classes(minsrc: str, fname: str, params, args) -> bool:
+    """Some argument (or an element of one) is an instance of a class D of its declared type and of a class T the
+    minimal program tests for (isinstance / class pattern), D and T unrelated (neither a subclass of the other): only a
+    subclass of both - an intersection pyanalyze cannot express - contains it (the mechanism C02 lists under this key)."""
+    from vp.props.c02 import _classes_of
+
+    ns = dict(ty.eval_ns())
+    tree = ast.parse(minsrc)
+    tested = []
+    for node in ast.walk(tree):
+        cands = []
+        if isinstance(node, ast.Call) and isinstance(node.func, ast.Name) and node.func.id in ("isinstance", "issubclass") and len(node.args) == 2:
+            cands = list(node.args[1].elts) if isinstance(node.args[1], ast.Tuple) else [node.args[1]]
+        elif isinstance(node, ast.MatchClass):
+            cands = [node.cls]
+        for c in cands:
+            try:
+                k = eval(compile(ast.Expression(c), "<cls>", "eval"), ns)
+            except Exception:  # noqa: BLE001
+                continue
+            if isinstance(k, type):
+                tested.append(k)
+    declared = [d for _, t in params for d in _classes_of(t)]
+    objs = []
+
+    def flat(o, depth=0):
+        objs.append(o)
+        if depth < 3 and isinstance(o, (tuple, list, set, frozenset, dict)):
+            for e in (list(o.values()) + list(o) if isinstance(o, dict) else o):
+                flat(e, depth + 1)
+
+    for src in args:
+        try:
+            flat(eval(src, ns))
+        except Exception:  # noqa: BLE001
+            pass
+    for o in objs:
+        for d in declared + tested:
+            for t in tested:
+                if d is object or t is object or issubclass(d, t) or issubclass(t, d):
+                    continue
+                if isinstance(o, d) and isinstance(o, t):
+                    return True
+    return False
+
+
+def _union_valued_stored_condition(minsrc: str, fname: str) -> bool:
+    """Observes pyanalyze on the minimal program: some if/while/conditional-expression/assert of `fname` tests a stored
+    condition (a bare name, possibly negated) whose inferred value is a union with the narrowing constraint attached to
+    the members of the union (`ok = x != 0` with x: int | None is `bool | Any`, each member carrying the constraint)."""
+    from vp.props.c02 import condition_carried_by_each_union_member
+
+    try:
+        tree = ast.parse(minsrc)
+        res = harness.run(minsrc, tree=tree, annotate=True, kwargs=harness.constructor_kwargs("tests", C01_OVERRIDES, fresh=True))
+        if res.exception is not None:
+            return False
+        fn = next(n for n in tree.body if isinstance(n, ast.FunctionDef) and n.name == fname)
+        for node in ast.walk(fn):
+            if isinstance(node, (ast.If, ast.While, ast.IfExp, ast.Assert)):
+                test = node.test
+                while isinstance(test, ast.UnaryOp) and isinstance(test.op, ast.Not):
+                    test = test.operand
+                if isinstance(test, ast.Name) and condition_carried_by_each_union_member(getattr(test, "inferred_value", None)):
+                    return True
+    except Exception:  # noqa: BLE001
+        pass
+    return False
 
 
 def _composite_root(expr):
